@@ -295,7 +295,7 @@ def _content_only(ctx) -> None:
            message="; ".join(p2))
     # hash() of a NaN (float, or complex with a NaN part) is derived from the OBJECT'S ADDRESS (Python >= 3.10): no return that takes
     # hash(x) of the element itself may be reachable for such an x - decided by evaluating the path conditions for the two kinds of NaN
-    def reach(e, kind) -> bool:
+    def reach(conds, kind) -> bool:
         def tr(t):
             k = t[0]
             if k == "bool":
@@ -321,13 +321,19 @@ def _content_only(ctx) -> None:
             if k == "call" and t[1] == ("name", "_is_hashable") and t[2] == (X,):
                 return True
             return None
-        return all((tr(t) if pol else (None if tr(t) is None else not tr(t))) is not False for t, pol in e.conds)
+        return all((tr(t) if pol else (None if tr(t) is None else not tr(t))) is not False for t, pol in conds)
     nanp = []
+    from ..sites2 import leaves_with_conds as _lwc
     for e in gi.events:
-        if e.kind == "return" and e.depth == 0 and any(t == ("call", ("name", "hash"), (X,), ()) for t in _subterms(e.term)):
+        if e.kind != "return" or e.depth != 0:
+            continue
+        # (a conditional return value is judged alternative by alternative, under its own condition)
+        for leaf, lconds in _lwc(e.term):
+            if not any(t == ("call", ("name", "hash"), (X,), ()) for t in _subterms(leaf)):
+                continue
             for kind in ("float", "complex"):
-                if reach(e, kind):
-                    nanp.append(f"`return {show(e.term, gi)[:40]}` is reached by a {kind} NaN: hash() of a NaN depends on the object's address, "
+                if reach(tuple(e.conds) + tuple(lconds), kind):
+                    nanp.append(f"`return {show(leaf, gi)[:40]}` is reached by a {kind} NaN: hash() of a NaN depends on the object's address, "
                                 f"so equal contents get different fingerprints")
     ctx.ob("c.content-only", g, "nan-by-value", not nanp, "no hash(x) is taken of a float / complex NaN", g.node, message="; ".join(nanp[:2]))
 
